@@ -98,6 +98,12 @@ Unary ==
   \E x \in Slots : LET X == Get(x) IN
     \/ En("neg") /\ SetR("neg", <<x>>, IF IsEmpty(X) THEN X ELSE Carrier(X.r, X.c, MNeg(X.d), X.cplx))
     \/ En("copy") /\ SetR("copy", <<x>>, X)
+    \* adding / subtracting the scalar zero (as sum() does) gives an independent copy
+    \/ En("addzero") /\ SetR("addzero", <<x>>, X)
+    \/ En("raddzero") /\ SetR("raddzero", <<x>>, X)
+    \/ En("subzero") /\ ~IsEmpty(X) /\ SetR("subzero", <<x>>, X)
+    \/ En("rsubzero") /\ ~IsEmpty(X) /\ SetR("rsubzero", <<x>>, Carrier(X.r, X.c, MNeg(X.d), X.cplx))
+    \/ En("pos") /\ SetR("pos", <<x>>, X)
     \/ En("T") /\ SetR("T", <<x>>, IF IsEmpty(X) THEN X ELSE Carrier(X.c, X.r, MT(X.d, X.r, X.c), X.cplx))
     \/ En("conj") /\ SetR("conj", <<x>>, IF IsEmpty(X) THEN X ELSE Carrier(X.r, X.c, MMap(X.d, GConj), X.cplx))
     \/ En("real") /\ ~IsEmpty(X) /\ SetR("real", <<x>>, Carrier(X.r, X.c, MMap(X.d, GRe), FALSE))
